@@ -5,12 +5,17 @@
 package main
 
 import (
+	"encoding/json"
 	"fmt"
 	"os"
+	"os/exec"
+	"path/filepath"
+	"runtime"
 	"runtime/debug"
 	"sort"
 	"strconv"
 	"strings"
+	"sync"
 
 	"tinkverif/core"
 	"tinkverif/effects"
@@ -24,6 +29,8 @@ func main() {
 	switch os.Args[1] {
 	case "check":
 		os.Exit(check(os.Args[2:]))
+	case "mutant":
+		os.Exit(mutant(os.Args[2:]))
 	case "effects":
 		dumpEffects(os.Args[2:])
 	case "auth":
@@ -95,7 +102,164 @@ func check(args []string) (code int) {
 	rep.Counts["ssa_functions"] = len(p.Funcs)
 	ctx := &rules.Ctx{P: p, R: rep, Tier: tier}
 	rule(ctx)
+	if tier == "thorough" {
+		thorough(prop, rule, rep)
+	}
 	return rep.Finish()
+}
+
+// thorough: the same rules on the module's second CI target (GOARCH=386),
+// then the mutation self-test of the checker on the confirmed seeded changes.
+func thorough(prop string, rule rules.Rule, rep *core.Report) {
+	p386, err := core.Load(core.RepoDir(), "386", nil)
+	if err != nil {
+		rep.Add(core.Obligation{Rule: prop + ".load", Key: prop + ".load/386", Pos: "-", Status: core.Violated,
+			Detail: "cannot load/type-check the repository for GOARCH=386: " + err.Error(), Nontrivial: true})
+	} else {
+		rep.KeyPrefix = "386:"
+		rule(&rules.Ctx{P: p386, R: rep, Tier: "thorough"})
+		rep.KeyPrefix = ""
+		rep.Counts["ssa_functions_386"] = len(p386.Funcs)
+	}
+	p386 = nil
+	runtime.GC()
+	selftest(prop, rep)
+}
+
+type seedMeta struct {
+	Property   string   `json:"property"`
+	Name       string   `json:"name"`
+	DetectedBy []string `json:"detected_by"`
+}
+
+// selftest re-runs this property's rules on every confirmed seeded change that
+// is recorded as detected by it (patch applied as an in-memory overlay on the
+// current working tree, one subprocess per change). A change that is no longer
+// detected fails the run: a weakened rule cannot pass quietly. A patch that no
+// longer applies to the edited tree is skipped and reported.
+func selftest(prop string, rep *core.Report) {
+	dirs, _ := filepath.Glob(filepath.Join(core.VerifDir(), "seeded", "*", "meta.json"))
+	sort.Strings(dirs)
+	type job struct{ name, patch string }
+	var jobs []job
+	for _, mf := range dirs {
+		b, err := os.ReadFile(mf)
+		if err != nil {
+			continue
+		}
+		var sm seedMeta
+		if json.Unmarshal(b, &sm) != nil {
+			continue
+		}
+		for _, d := range sm.DetectedBy {
+			if d == prop {
+				jobs = append(jobs, job{filepath.Base(filepath.Dir(mf)), filepath.Join(filepath.Dir(mf), "patch.diff")})
+			}
+		}
+	}
+	self, _ := os.Executable()
+	type res struct {
+		job
+		code int
+		out  string
+	}
+	results := make([]res, len(jobs))
+	sem := make(chan struct{}, 4)
+	var wg sync.WaitGroup
+	for i, j := range jobs {
+		wg.Add(1)
+		go func(i int, j job) {
+			defer wg.Done()
+			sem <- struct{}{}
+			defer func() { <-sem }()
+			cmd := exec.Command(self, "mutant", prop, j.patch)
+			out, err := cmd.CombinedOutput()
+			code := 0
+			if ee, ok := err.(*exec.ExitError); ok {
+				code = ee.ExitCode()
+			} else if err != nil {
+				code = 5
+			}
+			results[i] = res{j, code, string(out)}
+		}(i, j)
+	}
+	wg.Wait()
+	killed, skipped := 0, 0
+	var list []string
+	for _, rs := range results {
+		key := fmt.Sprintf("%s.selftest/%s", prop, rs.name)
+		switch rs.code {
+		case 3:
+			killed++
+			first := strings.SplitN(strings.TrimSpace(rs.out), "\n", 2)[0]
+			rep.Ok(prop+".selftest", key, "-", "seeded change still detected: "+first)
+			list = append(list, rs.name+": detected")
+		case 4:
+			skipped++
+			rep.Outside(prop+".selftest", key, "-", "seeded patch no longer applies to the current tree: "+strings.TrimSpace(rs.out))
+			list = append(list, rs.name+": skipped (patch does not apply)")
+		case 0:
+			rep.Add(core.Obligation{Rule: prop + ".selftest", Key: key, Pos: "-", Status: core.Violated, Nontrivial: true,
+				Detail: "checker-selftest: a confirmed seeded change recorded as detected by this check is no longer detected — the rule was weakened"})
+			list = append(list, rs.name+": SURVIVED")
+		default:
+			rep.Add(core.Obligation{Rule: prop + ".selftest", Key: key, Pos: "-", Status: core.Violated, Nontrivial: true,
+				Detail: fmt.Sprintf("checker-selftest: mutant run failed (exit %d): %s", rs.code, strings.TrimSpace(rs.out))})
+			list = append(list, rs.name+": error")
+		}
+	}
+	rep.Extra["selftest_mutants"] = len(jobs)
+	rep.Extra["selftest_killed"] = killed
+	rep.Extra["selftest_skipped"] = skipped
+	rep.Extra["selftest_results"] = list
+}
+
+// mutant: tinkverif mutant Cxx patch.diff — exit 3 if the rules of Cxx report
+// a violation on the tree with the patch applied in memory, 0 if not, 4 if
+// the patch does not apply.
+func mutant(args []string) int {
+	if len(args) < 2 {
+		usage()
+	}
+	prop, patchFile := args[0], args[1]
+	rule, ok := rules.Registry[prop]
+	if !ok {
+		fmt.Println("no rule for", prop)
+		return 5
+	}
+	b, err := os.ReadFile(patchFile)
+	if err != nil {
+		fmt.Println(err)
+		return 5
+	}
+	ov, err := core.OverlayFromPatch(core.RepoDir(), b)
+	if err != nil {
+		fmt.Println(err)
+		return 4
+	}
+	p, err := core.Load(core.RepoDir(), "", ov)
+	if err != nil {
+		fmt.Println("load with patch failed:", err)
+		return 4
+	}
+	rep := core.NewReport(prop, "quick", 0)
+	rep.NoOutput = true
+	func() {
+		defer func() {
+			if r := recover(); r != nil {
+				rep.Add(core.Obligation{Rule: prop + ".checker", Key: prop + ".checker/panic", Status: core.Violated, Detail: fmt.Sprint(r)})
+			}
+		}()
+		rule(&rules.Ctx{P: p, R: rep, Tier: "quick"})
+	}()
+	f := rep.Failing()
+	for _, o := range f {
+		fmt.Printf("%s [%s] %s at %s\n", o.Status, o.Rule, o.Key, o.Pos)
+	}
+	if len(f) > 0 {
+		return 3
+	}
+	return 0
 }
 
 func dumpEffects(args []string) {
